@@ -584,7 +584,21 @@ pub fn exec(s: &J) -> J {
             }
         }
         "strip_nulls" => buffered(&mut ev, pre, |buf| jsonb::strip_nulls(i0, buf)),
-        "build_array" => buffered(&mut ev, pre, |buf| jsonb::build_array(inp.iter().map(|b| b.as_slice()), buf)),
+        "build_array" => {
+            buffered(&mut ev, pre.clone(), |buf| jsonb::build_array(inp.iter().map(|b| b.as_slice()), buf));
+            // once more with an iterator whose size is not known in advance; same contract
+            if let Some(pre) = pre {
+                let exact = ev.get("res2").cloned();
+                let lazy = guard(|| {
+                    let mut buf = pre.clone();
+                    let r = jsonb::build_array(inp.iter().map(|b| b.as_slice()).filter(|b| !b.is_empty() || b.is_empty()), &mut buf);
+                    json!({"t":"buf","ok": if r.is_ok() {1} else {0},"after":bytes_to_j(&buf)})
+                });
+                if Some(&lazy) != exact.as_ref() {
+                    ev.insert("res2".into(), lazy);
+                }
+            }
+        }
         "build_object" => {
             let keys: Vec<String> = a["keys"].as_array().unwrap().iter().map(s_of).collect();
             buffered(&mut ev, pre, |buf| jsonb::build_object(keys.iter().map(|k| k.as_str()).zip(inp.iter().map(|b| b.as_slice())), buf))
@@ -632,7 +646,8 @@ pub fn exec(s: &J) -> J {
                     let mut k1 = Vec::new();
                     jsonb::convert_to_comparable(i0, &mut k0);
                     jsonb::convert_to_comparable(i1, &mut k1);
-                    json!({"t":"keys","k0":bytes_to_j(&k0),"k1":bytes_to_j(&k1)})
+                    let cmp = guard(|| match jsonb::compare(i0, i1) { Ok(o) => r_ord(o), Err(e) => r_err(&e) });
+                    json!({"t":"keys","k0":bytes_to_j(&k0),"k1":bytes_to_j(&k1),"cmp":cmp})
                 }),
             );
         }
